@@ -47,6 +47,7 @@ pub struct Fail {
 }
 
 fn execute(robot: &Arc<KinematicsWithShape>, case: &Case, cfg: &SimCfg) -> SimOut<Offered> {
+    report::progress_case(|| { let mut c = case.clone(); c.cfgs = vec![cfg.clone()]; c.reconfigure = None; json!({"check": "C14", "case": c}) });
     let robot = robot.clone();
     let (i, f, t) = (case.initial, case.from, case.to);
     let second = case.second_call;
@@ -514,6 +515,7 @@ pub fn run(tier_name: &str, seed: u64) -> i32 {
     let tally = report::run_shards(t.shards, |shard| {
         let mut tally = Tally::default();
         for run in 0..t.per_shard {
+            report::progress(shard, run);
             let Some(case) = gen_case(seed, shard as u64, run as u64, &t) else {
                 tally.bump("scenarios_without_free_initial_posture", 1);
                 continue;
